@@ -167,14 +167,14 @@ def C05_error_reply_flags (stepF : Backend σ κ γ ρ → List (List γ) → Co
     t.inTxn = true → endsTxn i = false → (stepF B sc t s i).2.2 = .err e → benignInMulti e = false →
     (stepF B sc t s i).1.errors = true
 
-/-- **partial** (the current tree): holds for every input but the protocol error -/
+/-- **partial** (the pinned tree, `Txn.step`): holds for every input but the protocol error -/
 theorem error_reply_flags_partial (B : Backend σ κ γ ρ) (sc : List (List γ)) (t : ConnTxn κ γ ρ)
     (s : σ) (i : Input κ γ) (e : ConnErr) (hin : t.inTxn = true) (hi : endsTxn i = false)
     (hp : i ≠ .protoErr) (hr : (step B sc t s i).2.2 = .err e) (hb : benignInMulti e = false) :
     (step B sc t s i).1.errors = true := by
   cases i <;> simp_all [step, endsTxn] <;> (subst hr; simp [benignInMulti] at hb)
 
-/-- **full** for the tree with the proposed fix -/
+/-- **full** for the current tree (`Txn.stepFixed`, since `fix:` 6b9d6a7) -/
 theorem error_reply_flags_fixed : C05_error_reply_flags (σ := σ) (κ := κ) (γ := γ) (ρ := ρ) stepFixed := by
   intro B sc t s i e hin hi hr hb
   cases i <;> simp_all [stepFixed, step, endsTxn] <;> (subst hr; simp [benignInMulti] at hb)
@@ -186,7 +186,7 @@ theorem stepFixed_eq_step (B : Backend σ κ γ ρ) (sc : List (List γ)) (t : C
 
 end
 
-/-- REFUTED for the code as it is: `MULTI; SET k 1; <bytes that are not RESP>; EXEC` — the
+/-- PINNED commit (before `fix:` 6b9d6a7; `Txn.step`): REFUTED — `MULTI; SET k 1; <bytes that are not RESP>; EXEC` — the
     connection answers `-ERR protocol error`, does not flag the transaction, and EXEC applies the
     rest (Redis closes the connection, so nothing is applied) -/
 theorem protocol_error_not_flagged_counterexample :
